@@ -1,8 +1,38 @@
 (* C05 — After `db create` index and files agree; files change only to gain ZIDs.
-   PARTIAL: line-level theorems about the write-back (for items whose words are
-   separated by single spaces) + the world-level run of the harness. *)
+   Proved: PAGE-level theorems on abstract pages (the write-back of ZIDs, run on the canonical text of ANY abstract
+   page with the (line, ZID) pairs read off its notes, yields the canonical text of the same page with the ZIDs in
+   identity position; with C01 that text compiles to the same notes, each now carrying its ZID), item- and
+   line-level theorems, and the refutation for irregular spacing.  Which ZID goes to which line (_add_zids +
+   the ZID manager, C07) and the SQL rows are covered by the harness run against the real `db create`. *)
 From Zorg Require Import Base.PyStr Base.Res Base.Dates Model.Zid Model.FileListener Model.QueryListener Model.WriteBack
-  Proofs.WriteBackFacts Model.PageSyntax Model.PageText Proofs.PageFacts Proofs.ItemWriteBack.
+  Proofs.WriteBackFacts Model.PageSyntax Model.PageText Proofs.PageFacts Proofs.ItemWriteBack Model.PageLines
+  Proofs.PageWriteBack.
+
+(* The whole page. pg: any abstract page; zf: any choice of a ZID per line (the real choice is the ZID manager's);
+   zid_targets zf (spec_page today pg) = the (line, ZID) pairs of the ZID-less notes of the page, in document order
+   - what _add_zids hands _update_zo_file. The rewritten file is the canonical text of [zidded zf pg]: the same
+   page, every ZID-less item now with identity = its ZID (after kind / priority, in place of a leading long
+   creation date), every other line and every other word untouched. *)
+Theorem C05_zids_written_into_page : forall today zf pg,
+  zid_ready zf pg -> forallb (lacks nlc10) (map row_text (page_rows pg)) = true ->
+  update_zo_file add_zid_to_line (zid_targets zf (spec_page today pg)) (page_text pg) = Ok (page_text (zidded zf pg)).
+Proof. exact zids_written_into_page. Qed.
+
+(* ... whose notes are the notes of pg, on the same lines, in the same order, each with its old ZID or the one
+   chosen for its line (and, by C01_page_yields_exactly_its_notes applied to [zidded zf pg], these are exactly the
+   notes the rewritten file compiles to) *)
+Theorem C05_rewritten_page_notes : forall today zf pg,
+  map (fun n => (n_line n, n_zid n)) (spec_page today (zidded zf pg)) =
+  map (fun n => (n_line n, match n_zid n with Some z => Some z | None => Some (zf (n_line n)) end)) (spec_page today pg).
+Proof. exact zidded_notes. Qed.
+Theorem C05_rewritten_page_compiles : forall today zf pg,
+  valid_page (zidded zf pg) ->
+  exists secs, listen today false (tree_of_page (zidded zf pg)) = Ok (mkPage false (spec_page today (zidded zf pg)) secs).
+Proof. intros today zf pg. apply page_correct. Qed.
+
+(* the side conditions are decidable; the harness evaluates them on every generated page *)
+Theorem C05_page_hypotheses_decidable : forall zf pg, zid_readyb zf pg = true -> zid_ready zf pg.
+Proof. exact zid_readyb_sound. Qed.
 
 (* On abstract items (coq/Model/PageSyntax.v), any number of words: writing the ZID into the canonical text of a
    ZID-less item yields the canonical text of the item whose identity is that ZID - after the kind / priority
@@ -56,6 +86,10 @@ Theorem C05_irregular_spacing_refuted :
   patch_body (S "240601#00") (S "P1   foo") = S "240601#00 P1   foo".
 Proof. exact irregular_spacing_refuted. Qed.
 
+Print Assumptions C05_zids_written_into_page.
+Print Assumptions C05_rewritten_page_notes.
+Print Assumptions C05_rewritten_page_compiles.
+Print Assumptions C05_page_hypotheses_decidable.
 Print Assumptions C05_zid_written_into_item.
 Print Assumptions C05_index_body_is_file_body.
 Print Assumptions C05_zid_after_kind.
